@@ -63,7 +63,7 @@ type Term struct {
 }
 
 type TermStore struct {
-	tab    map[string]*Term
+	tab    map[termKey]*Term
 	nextID int
 	True   *Term
 	False  *Term
@@ -72,19 +72,38 @@ type TermStore struct {
 }
 
 func NewTermStore() *TermStore {
-	s := &TermStore{tab: map[string]*Term{}, ufs: map[string][]int{}}
+	s := &TermStore{tab: map[termKey]*Term{}, ufs: map[string][]int{}}
 	s.True = s.mk(&Term{op: OpConst, width: 0, val: 1})
 	s.False = s.mk(&Term{op: OpConst, width: 0, val: 0})
 	return s
 }
 
+type termKey struct {
+	op         Op
+	width      int
+	val        uint64
+	name       string
+	a0, a1, a2 int
+}
+
 func (s *TermStore) mk(t *Term) *Term {
-	var sb strings.Builder
-	fmt.Fprintf(&sb, "%d:%d:%d:%s", t.op, t.width, t.val, t.name)
-	for _, a := range t.args {
-		fmt.Fprintf(&sb, ",%d", a.id)
+	k := termKey{op: t.op, width: t.width, val: t.val, name: t.name, a0: -1, a1: -1, a2: -1}
+	switch len(t.args) {
+	case 0:
+	case 1:
+		k.a0 = t.args[0].id
+	case 2:
+		k.a0, k.a1 = t.args[0].id, t.args[1].id
+	case 3:
+		k.a0, k.a1, k.a2 = t.args[0].id, t.args[1].id, t.args[2].id
+	default:
+		var sb strings.Builder
+		sb.WriteString(t.name)
+		for _, a := range t.args {
+			fmt.Fprintf(&sb, ",%d", a.id)
+		}
+		k.name = sb.String()
 	}
-	k := sb.String()
 	if e, ok := s.tab[k]; ok {
 		return e
 	}
